@@ -1220,8 +1220,32 @@ def inline_new_constants(tree: ast.Module, modname: str) -> int:
     return n
 
 
+def _split_const_membership(tree: ast.Module) -> int:
+    """`'directory' in (a.get('type'), b.get('type'))`  ->  `a.get('type') == 'directory' or b.get('type') == 'directory'`
+    (a constant looked up in a short literal tuple of expressions; `not in` gives the `!=` / `and` form)."""
+    n = 0
+
+    class T(ast.NodeTransformer):
+        def visit_Compare(self, c):
+            nonlocal n
+            self.generic_visit(c)
+            if len(c.ops) == 1 and isinstance(c.ops[0], (ast.In, ast.NotIn)) and isinstance(c.left, ast.Constant) and isinstance(c.left.value, (str, int)) and not isinstance(c.left.value, bool) \
+                    and isinstance(c.comparators[0], (ast.Tuple, ast.List)) and 2 <= len(c.comparators[0].elts) <= 4 \
+                    and not any(isinstance(e, (ast.Constant, ast.Starred)) for e in c.comparators[0].elts):
+                neg = isinstance(c.ops[0], ast.NotIn)
+                parts = [ast.Compare(left=e, ops=[ast.NotEq() if neg else ast.Eq()], comparators=[copy.deepcopy(c.left)]) for e in c.comparators[0].elts]
+                n += 1
+                return ast.copy_location(ast.BoolOp(op=ast.And() if neg else ast.Or(), values=parts), c)
+            return c
+
+    T().visit(tree)
+    ast.fix_missing_locations(tree)
+    return n
+
+
 def desugar(tree: ast.Module) -> int:
     total = expand_dict_splats(tree)
+    total += _split_const_membership(tree)
     total += _unroll_table_comprehensions(tree)
     total += _build_conditional_dicts(tree)
     for _ in range(4):
